@@ -1,0 +1,44 @@
+//go:build verif
+
+package ctlog
+
+import (
+	"context"
+
+	"filippo.io/sunlight"
+)
+
+// This file is only built with -tags verif. It exposes to the /verif harness
+// what export_test.go exposes to the package's own tests, plus a hook the
+// harness can install to observe (and park at) a few internal points of the
+// sequencer that are not visible through the Backend and LockBackend
+// interfaces.
+
+var VerifErrEvicted = errEvicted
+var VerifErrPoolFull = errPoolFull
+var VerifErrFatal = errFatal
+
+// VerifPoint, if set, is called at the named internal points.
+var VerifPoint func(l *Log, name string)
+
+func verifPoint(l *Log, name string) {
+	if VerifPoint != nil {
+		VerifPoint(l, name)
+	}
+}
+
+func VerifSetTimeNowUnixMilli(f func() int64) {
+	timeNowUnixMilli = f
+}
+
+func (l *Log) VerifAddLeafToPool(ctx context.Context, e *PendingLogEntry, lowPriority bool) (func(ctx context.Context) (*sunlight.LogEntry, error), string) {
+	return l.addLeafToPool(ctx, e, lowPriority)
+}
+
+func (l *Log) VerifSequence(ctx context.Context) error {
+	return l.sequence(ctx)
+}
+
+func VerifComputeCacheHash(certificate []byte, isPrecert bool, issuerKeyHash [32]byte) [32]byte {
+	return computeCacheHash(certificate, isPrecert, issuerKeyHash)
+}
